@@ -12,7 +12,7 @@ META = {
                    'component key of the MS-RDPBCGR field it represents with the right cast; (R10.4) the fast-path update / bitmap '
                    'data layouts: every Size/SkipField target exists and is a later field, the compression-header skip condition is '
                    'decided for the four flag combinations and equals the specification truth table, the sized read in Component::read '
-                   'is unconditional; (R10.5) fast-path frames are routed to the global channel. The DSL interpreter\'s behaviour on '
+                   'is unconditional; (R10.6) the update kind is bits 3..0 of updateHeader (bit-provenance domain), the update-code enum has the MS-RDPBCGR values and only code 1 selects the bitmap layout; (R10.5) fast-path frames are routed to the global channel. The DSL interpreter\'s behaviour on '
                    'arbitrary byte strings is not decided.',
     'assumptions': ['slice::Iter / Vec::IntoIterator yield elements in index order (std contract)'],
     'trusted_base': ['rustc nightly MIR construction', 'mirfacts exporter', 'rules/c10.py, dsl.py, sym.py, facts.py'],
